@@ -46,8 +46,8 @@ TOLERATED = {
 class K:
     """canonicaliser of terms across the two flavours"""
 
-    def __init__(self, res=None, body=None):
-        self.res, self.body = res, body
+    def __init__(self, res=None, body=None, ctx=None):
+        self.res, self.body, self.ctx = res, body, ctx
         self._busy = set()
 
     def widened(self, x, depth):
@@ -146,6 +146,11 @@ class K:
         if tg == "atomic_new":
             return self.t(x[1], depth + 1)
         if tg == "closure":
+            # a closure is what it computes: its (canonical) return term, not its name
+            cb = self.ctx.facts.body(x[1]) if self.ctx is not None else None
+            if cb is not None and depth < 20:
+                ev2, r2 = self.ctx.eval(cb, no_inline=NOINLINE)
+                return ("closure", repr(K(r2, cb, self.ctx).t(r2.ret, depth + 1)), tuple(self.t(u, depth + 1) for u in x[2]))
             return ("closure", re.sub(r"\b(un)?sync::", "", x[1]))
         return tuple(self.t(y, depth + 1) if isinstance(y, (tuple, Lin)) else (re.sub(r"\b(un)?sync::", "", y) if isinstance(y, str) else y) for y in x)
 
@@ -189,7 +194,7 @@ def found_ourselves(f):
 
 def summarise(ctx, b, flavour):
     ev, res = ctx.eval(b, no_inline=NOINLINE + (r"::alloc_in$", r"::alloc_aligned_bytes_in$", r"Memory::<.*>::clear$", r"get_aligned_pointer_mut$"))
-    k = K(res, b)
+    k = K(res, b, ctx)
     items = set()
     removed_blocks = set()
     for e in res.log:
